@@ -117,6 +117,27 @@ pub fn check_dur(rep: &mut Rep, c: i128) {
             }
         }
     }
+    // the other deserialisation routes of the same serialized form: an owned Value, a reader (no borrowing from the
+    // input possible), and JSON text in which the non-ASCII unit letter is written as an escape (no borrowing either)
+    match guard(|| {
+        let v = serde_json::to_value(d).map_err(|e| format!("to_value: {e}"))?;
+        let a: Duration = serde_json::from_value(v.clone()).map_err(|e| format!("from_value({v}): {e}"))?;
+        let bytes = serde_json::to_vec(&d).map_err(|e| format!("to_vec: {e}"))?;
+        let b: Duration = serde_json::from_reader(&bytes[..]).map_err(|e| format!("from_reader: {e}"))?;
+        let esc = serde_json::to_string(&d).map_err(|e| e.to_string())?.replace('μ', "\\u03bc").replace(' ', "\\u0020");
+        let c: Duration = serde_json::from_str(&esc).map_err(|e| format!("from_str({esc}): {e}"))?;
+        Ok::<_, String>([a, b, c])
+    }) {
+        Err(e) => rep.fail(&format!("serde-routes/panic/{}", e.class()), None, || format!("serde routes of {} panicked: {}", fmt_parts(p), e.msg)),
+        Ok(Err(e)) => rep.fail("serde-routes/err", None, || format!("deserialising the serialized form of {} failed: {}", fmt_parts(p), e)),
+        Ok(Ok(v)) => {
+            for (k, g) in v.iter().enumerate() {
+                if g.to_parts() != p {
+                    rep.fail("serde-routes/value", None, || format!("serde route {} (0 from_value, 1 from_reader, 2 escaped text) of {} gave {}", k, fmt_parts(p), fmt_parts(g.to_parts())));
+                }
+            }
+        }
+    }
     match guard(|| {
         let js = serde_json::to_string(&d).map_err(|e| e.to_string())?;
         let back: Duration = serde_json::from_str(&js).map_err(|e| format!("{js}: {e}"))?;
